@@ -76,6 +76,88 @@ STANDARD = {
                 "both release and debug (overflow-checked) builds. non-trivial = |S| >= 2; distinct = (map, settings, program) digests",
         "required": {"class:short-sequence(<=3)": 1, "mode:osu": 1, "mode:taiko": 1, "mode:catch": 1, "mode:mania": 1},
     },
+    "C09": {
+        "variants": ["rel"],
+        "quick": 6000,
+        "thorough": 150000,
+        "rule": "case = (realistic map incl. empty/single-object/all-spinner/stacked/dense/sparse profiles, reachable mode, game-reachable "
+                "settings: clock in [0.5,2], overrides in [0,11]) x 8 passed_objects prefixes x 3 score states consistent with the counts; "
+                "visitor over every f64 of difficulty attributes, strains and performance attributes: finite; ratings/pp/components >= 0; "
+                "ScoreState accuracy in [0,1]; a play over zero objects has pp == 0. non-trivial = map has >= 2 objects",
+        "required": {"class:empty-map": 1, "class:single-object": 1, "class:all-spinner": 1, "class:zero-objects-play": 1},
+    },
+    "C12": {
+        "variants": ["rel"],
+        "quick": 8000,
+        "thorough": 200000,
+        "rule": "case = attribute shape from public struct literals (60% small: <= 6 per count, else up to thousands; mania <= 120) x 200 "
+                "(400 thorough) random inputs: subsets of accuracy/combo/misses/hit results with values 0..N+2, both priorities, "
+                "stable/lazer/CL, passed_objects; clauses S1 no panic, S2 misses, S3 sum and kept results when the provided ones fit, "
+                "S4 combo bound and kept, S5 generate twice, S6 calculate() == explicit generated state. distinct = (shape, input) digests",
+        "required": {"class:small-shape": 1, "class:large-shape": 1},
+    },
+    "C13": {
+        "variants": ["rel"],
+        "quick": 400,
+        "thorough": 2400,
+        "exhaustive_prefix": True,
+        "rule": "cases 0..K-1 enumerate ALL small shapes (quick: osu <= 5 objects with 0-3 sliders, 0-2 ticks, 0-2 spinners; taiko combo 0-8; "
+                "catch fruits 0-3 x droplets 0-2 x tiny 0-4; mania objects 0-4 x holds 0-2; thorough: 8 / 12 / 5x3x6 / 6x3) x every miss count "
+                "0..N+1 x accuracy grid 0..100 step 0.25 plus every exactly achievable accuracy +-1e-7 x priorities x stable/lazer/lazer+CL; "
+                "remaining cases are sampled large shapes. oracle enumerates all hit-result distributions with the same misses using the "
+                "crate's public ScoreState::accuracy. distinct = distinct shapes with >= 1 object",
+        "required": {"class:exhaustive-shape": 1, "class:sampled-shape": 1},
+    },
+    "C14": {
+        "variants": ["rel"],
+        "quick": 6000,
+        "thorough": 150000,
+        "rule": "case = (map, reachable mode, mods incl. mirror/HR reflections, key mods, HO/IN/RD) with n over 0..total+2 (sampled above 40); "
+                "independent reference counts from public fields of the converted map; counted(n) == min(n,total); counts and max_combo "
+                "non-decreasing; n >= total == unlimited; is_convert flag. non-trivial = total units >= 2",
+        "required": {"class:convert": 1, "mode:osu": 1, "mode:taiko": 1, "mode:catch": 1, "mode:mania": 1},
+    },
+    "C16": {
+        "variants": ["rel"],
+        "quick": 6000,
+        "thorough": 150000,
+        "rule": "case = (non-suspicious map incl. hour-long gaps and objects before t=0, reachable mode, settings incl. passed_objects and "
+                "HO/IN/RD); peaks finite and >= 0, equal section counts across skills, re-aggregation (drop zeros, sort desc, sum peak*w^i) "
+                "reproduces catch stars (0.94, sqrt*4.59), mania stars (0.9, *0.018), osu flashlight (plain sum, sqrt*0.0675, TD/RX/AP) "
+                "within 4 ulp. non-trivial = >= 2 sections",
+        "required": {"class:zero-run>=1000": 1, "class:objects-before-time-zero": 1, "mode:osu": 1, "mode:catch": 1, "mode:mania": 1},
+    },
+    "C17": {
+        "variants": ["rel"],
+        "quick": 1500,
+        "thorough": 30000,
+        "rule": "case = builder configuration (mode, is_convert, NM/HR/EZ/DT/HT combos or lazer DA/rate mods, clock none or 40 log-spaced in "
+                "[0.01,100]); A1 build().hit_windows == hit_windows() for AR and OD over [-20,20] step 0.25 x both flags; A2 with_mods=true "
+                "round trip on [0,10]; A3 windows non-increasing over the grid; A4 window(r)*r == window(1) (not mania great window); "
+                "A5 HR >= NM >= EZ values, windows reversed; A6 stored AR/HP/OD/hit windows of a random map == builder output. "
+                "distinct = configuration digests",
+        "required": {"A6_checks": 1, "mode:osu": 1, "mode:taiko": 1, "mode:catch": 1, "mode:mania": 1},
+    },
+    "C18": {
+        "variants": ["rel"],
+        "quick": 6000,
+        "thorough": 150000,
+        "rule": "case = (map, mode, random setter program of 1-8 setters with in/out-of-range/infinite values, score spec); B1 Performance "
+                "setters (enum, owned, mode-specific builder, from attributes) == difficulty(Difficulty setters); permutation/last-wins; "
+                "B2 inspect round trip; B3 clamps observed through inspect and through results; B4 documented no-op setters per mode. "
+                "NaN arguments excluded. non-trivial = map has >= 2 objects",
+        "required": {"noop_checks": 1, "class:mode-builder-lacks-setter": 1},
+    },
+    "C19": {
+        "variants": ["rel"],
+        "quick": 6000,
+        "thorough": 120000,
+        "rule": "case = non-suspicious osu!standard map (all profiles, versions <8 and >=8) converted to taiko, catch, mania without key mod "
+                "and with 3 (thorough: all 10) key mods in legacy/intermode/lazer form; objects sorted, durations finite >= 0, control "
+                "points strictly increasing (when the source's are), taiko one sound per object, mania key count and raw column "
+                "floor(x/(512/K)) <= K-1 with x >= 0, catch equals source except mode/is_convert. non-trivial = source has >= 2 objects",
+        "required": {"class:version<8": 1, "class:version>=8": 1, "class:mania-key-mod": 1, "class:taiko-slider-split-into-hits": 1},
+    },
 }
 
 
@@ -84,13 +166,25 @@ def standard(prop, tier, seed):
     t0 = time.time()
     agg = D.Agg()
     total = cfg[tier]
+    exhaustive_n = None
     for variant in cfg["variants"]:
         binp = D.build(variant)
+        if cfg.get("exhaustive_prefix"):
+            import subprocess
+            out = subprocess.run([binp, prop, "--tier", tier, "--count-cases"], capture_output=True, text=True).stdout
+            try:
+                exhaustive_n = int(out.split()[1])
+            except (IndexError, ValueError):
+                raise D.Inconclusive(f"cannot determine the size of the enumerated space: {out!r}")
+            total = max(total, exhaustive_n + 50)
         D.run_sharded(agg, binp, prop, seed, total, tier, extra=cfg.get("params"), timeout=cfg.get("timeout", 1800),
                       budget=cfg.get("budget"), mem=cfg.get("mem"), variant=variant)
     return D.conclude(prop, tier, seed, agg, t0, cfg["rule"], COMMON_ASSUME + cfg.get("assume", []),
                       required=cfg.get("required"), replay_extra=cfg.get("params"),
-                      extra_cov={"variants": cfg["variants"]}, exhaustive=cfg.get("exhaustive"))
+                      extra_cov={"variants": cfg["variants"], **({"exhaustive_space_size": exhaustive_n,
+                                 "exhaustive_note": "cases 0..exhaustive_space_size-1 enumerate the small-shape space completely; "
+                                 "the rest of the cases are sampled"} if exhaustive_n else {})},
+                      exhaustive=True if exhaustive_n else cfg.get("exhaustive"))
 
 
 def replay(prop, path):
